@@ -7,8 +7,8 @@ From Coq Require Import Permutation.
 (* run states built by [start]/[answer]: a sequence or loop never holds a finished first part *)
 Fixpoint wfr (r : run) : Prop :=
   match r with
-  | RSeq r _ | RLoop r _ _ => fin r = false /\ wfr r
-  | RPar a b => wfr a /\ wfr b
+  | RSeq r _ | RLoop r _ _ => fin r = false /\ ended r = false /\ wfr r
+  | RPar a b | RIncl a b => wfr a /\ wfr b
   | RSub r => wfr r
   | _ => True
   end.
@@ -16,16 +16,17 @@ Fixpoint nospin (r : run) : Prop :=
   match r with
   | RSpin => False
   | RSeq r _ | RLoop r _ _ | RSub r => nospin r
-  | RPar a b => nospin a /\ nospin b
+  | RPar a b | RIncl a b => nospin a /\ nospin b
   | _ => True
   end.
 
 Lemma wfr_start e b : wfr (start e b).
 Proof.
   induction b; cbn [start wfr]; auto.
-  - destruct (fin (start e b1)) eqn:F; cbn [wfr]; auto.
+  - destruct (fin (start e b1)) eqn:F; cbn [wfr]; auto. destruct (ended (start e b1)) eqn:G; cbn [wfr]; auto.
   - destruct (getv e v); auto.
   - destruct (fin (start e b)) eqn:F; cbn [wfr]; auto. destruct (getv e v); cbn; auto.
+    destruct (ended (start e b)) eqn:G; cbn [wfr]; auto.
   - destruct (getv e v1), (getv e v2); cbn [orb wfr]; auto.
 Qed.
 
@@ -33,83 +34,351 @@ Lemma wfr_answer e r t : wfr r -> wfr (answer e r t).
 Proof.
   induction r; cbn [answer wfr]; auto.
   - intros _. destruct (t =? t0); cbn; auto.
-  - intros [F W]. destruct (fin (answer e r t)) eqn:G; cbn [wfr]; auto. apply wfr_start.
+  - intros [F [E W]]. destruct (fin (answer e r t)) eqn:G; cbn [wfr]; auto. apply wfr_start.
+    destruct (ended (answer e r t)) eqn:H; cbn [wfr]; auto.
   - intros [W1 W2]. auto.
-  - intros [F W]. destruct (fin (answer e r t)) eqn:G; cbn [wfr]; auto.
-    destruct (getv e v); cbn; auto. destruct (fin (start e body)) eqn:H; cbn [wfr]; auto. split; auto. apply wfr_start.
+  - intros [F [E W]]. destruct (fin (answer e r t)) eqn:G; cbn [wfr]; auto.
+    + destruct (getv e v); cbn; auto. destruct (fin (start e body)) eqn:H; cbn [wfr]; auto.
+      destruct (ended (start e body)) eqn:H2; cbn [wfr]; auto. repeat split; auto. apply wfr_start.
+    + destruct (ended (answer e r t)) eqn:H; cbn [wfr]; auto.
+  - intros [W1 W2]. auto.
 Qed.
 
-(** NO DEADLOCK: a run that is not complete (and not a busy loop) has a pending request *)
-Lemma progress r : wfr r -> nospin r -> fin r = false -> pending r <> [].
+(* the only dead ends of the game: a parallel block one of whose branches was consumed by an end event
+   (its join waits for ever) *)
+Fixpoint stuck_par (r : run) : Prop :=
+  match r with
+  | RPar a b => ended a = true \/ ended b = true \/ stuck_par a \/ stuck_par b
+  | RSeq r _ | RLoop r _ _ | RSub r => stuck_par r
+  | RIncl a b => stuck_par a \/ stuck_par b
+  | _ => False
+  end.
+
+Lemma fin_not_ended r : fin r = true -> ended r = false.
 Proof.
-  induction r; cbn [wfr nospin fin pending]; try (intros; discriminate); try contradiction.
-  - intros [F W] N _. auto.
-  - intros [W1 W2] [N1 N2] F. apply andb_false_iff in F. intros E. apply app_eq_nil in E. destruct E as [E1 E2].
-    destruct F as [F|F]; [apply (IHr1 W1 N1 F E1)|apply (IHr2 W2 N2 F E2)].
-  - intros [F W] N _. auto.
-  - intros W N F. auto.
+  induction r; cbn [fin ended]; try discriminate; auto.
+  intros H. apply andb_prop in H. destruct H as [H H3]. apply andb_prop in H. destruct H as [H1 H2].
+  apply orb_prop in H3. destruct H3 as [H3|H3]; [rewrite (IHr1 H3)|rewrite (IHr2 H3), andb_false_r]; reflexivity.
 Qed.
+
+(** NO DEADLOCK: a run that is not complete (and not a busy loop) has a pending request — unless an end
+    event consumed a branch of a parallel block *)
+Lemma progress_or_stuck r : wfr r -> nospin r -> complete r = false -> pending r = [] -> stuck_par r.
+Proof.
+  unfold complete. induction r; cbn [wfr nospin fin ended pending stuck_par orb]; try (intros; discriminate); try contradiction.
+  - intros [F [E W]] N _ P. apply IHr; auto. rewrite F, E. reflexivity.
+  - intros [W1 W2] [N1 N2] C P. apply app_eq_nil in P. destruct P as [P1 P2]. rewrite orb_false_r in C.
+    destruct (fin r1) eqn:F1.
+    + destruct (fin r2) eqn:F2; [discriminate|]. destruct (ended r2) eqn:E2; [auto|].
+      right; right; right. apply IHr2; auto.
+    + destruct (ended r1) eqn:E1; [auto|]. right; right; left. apply IHr1; auto.
+  - intros [F [E W]] N _ P. apply IHr; auto. rewrite F, E. reflexivity.
+  - intros W N C P. rewrite orb_false_r in C. apply IHr; auto.
+  - intros [W1 W2] [N1 N2] C P. apply app_eq_nil in P. destruct P as [P1 P2].
+    destruct (fin r1) eqn:F1, (ended r1) eqn:E1, (fin r2) eqn:F2, (ended r2) eqn:E2; cbn in C; try discriminate;
+      try (left; apply IHr1; auto; rewrite ?F1, ?E1; reflexivity); try (right; apply IHr2; auto; rewrite ?F2, ?E2; reflexivity).
+Qed.
+
+(* states that never end without a leaving token, now or later: what programs without end events produce
+   (REnded only as the placeholder of an inclusive branch that was not activated) *)
+Fixpoint nev (r : run) : Prop :=
+  match r with
+  | REnded => False
+  | RSeq r rest | RLoop r _ rest => nev r /\ endfree rest = true
+  | RPar a b => nev a /\ nev b
+  | RSub r => nev r
+  | RIncl a b => (nev a /\ nev b) \/ (nev a /\ b = REnded) \/ (a = REnded /\ nev b)
+  | _ => True
+  end.
+
+Lemma nev_not_ended r : nev r -> ended r = false.
+Proof.
+  induction r; cbn [nev ended]; auto; try contradiction.
+  intros [[A B]|[[A B]|[A B]]]; [rewrite (IHr1 A)|rewrite (IHr1 A)|rewrite (IHr2 B), andb_false_r]; reflexivity.
+Qed.
+
+Lemma nev_start e b : endfree b = true -> nev (start e b).
+Proof.
+  induction b; cbn [endfree start nev]; auto; try discriminate.
+  - intros H. apply andb_prop in H. destruct H as [H1 H2]. specialize (IHb1 H1). specialize (IHb2 H2).
+    destruct (fin (start e b1)); auto. rewrite (nev_not_ended _ IHb1). cbn [nev]. auto.
+  - intros H. apply andb_prop in H. destruct H as [H1 H2]. auto.
+  - intros H. apply andb_prop in H. destruct H as [H1 H2]. destruct (getv e v); auto.
+  - intros H. specialize (IHb H). destruct (fin (start e b)).
+    + destruct (getv e v); cbn; auto.
+    + rewrite (nev_not_ended _ IHb). cbn [nev]. auto.
+  - intros H. apply andb_prop in H. destruct H as [H H3]. apply andb_prop in H. destruct H as [H1 H2].
+    destruct (getv e v1), (getv e v2); cbn [orb nev]; auto.
+Qed.
+
+Lemma nev_answer e r t : nev r -> nev (answer e r t).
+Proof.
+  induction r; cbn [nev answer]; auto.
+  - intros _. destruct (t =? t0); cbn; auto.
+  - intros [A B]. specialize (IHr A). destruct (fin (answer e r t)); [apply nev_start; auto|].
+    rewrite (nev_not_ended _ IHr). cbn [nev]. auto.
+  - intros [A B]. auto.
+  - intros [A B]. specialize (IHr A). destruct (fin (answer e r t)).
+    + destruct (getv e v); cbn; auto. pose proof (nev_start e body B) as S. destruct (fin (start e body)); cbn; auto.
+      rewrite (nev_not_ended _ S). cbn [nev]. auto.
+    + rewrite (nev_not_ended _ IHr). cbn [nev]. auto.
+  - intros [[A B]|[[A B]|[A B]]]; subst; cbn [answer]; auto.
+Qed.
+
+Lemma nev_not_stuck r : nev r -> ~ stuck_par r.
+Proof.
+  induction r; cbn [nev stuck_par]; auto.
+  - intros [A B]. auto.
+  - intros [A B] [H|[H|[H|H]]]; [rewrite (nev_not_ended _ A) in H; discriminate|rewrite (nev_not_ended _ B) in H; discriminate|apply IHr1; auto|apply IHr2; auto].
+  - intros [A B]. auto.
+  - intros [[A B]|[[A B]|[A B]]] [H|H]; subst; cbn in *; auto; try (apply IHr1; auto; fail); try (apply IHr2; auto; fail).
+Qed.
+
+(* states of programs in which no end event sits inside a parallel block *)
+Fixpoint okR (r : run) : Prop :=
+  match r with
+  | RSeq r rest | RLoop r _ rest => okR r /\ endsafe rest = true
+  | RPar a b => nev a /\ nev b
+  | RSub r => okR r
+  | RIncl a b => okR a /\ okR b
+  | _ => True
+  end.
+
+Lemma okR_start e b : endsafe b = true -> okR (start e b).
+Proof.
+  induction b; cbn [endsafe start okR]; auto.
+  - intros H. apply andb_prop in H. destruct H as [H1 H2]. specialize (IHb1 H1). specialize (IHb2 H2).
+    destruct (fin (start e b1)); auto. destruct (ended (start e b1)); cbn [okR]; auto.
+  - intros H. apply andb_prop in H. destruct H as [H1 H2]. split; apply nev_start; auto.
+  - intros H. apply andb_prop in H. destruct H as [H1 H2]. destruct (getv e v); auto.
+  - intros H. specialize (IHb H). destruct (fin (start e b)).
+    + destruct (getv e v); cbn; auto.
+    + destruct (ended (start e b)); cbn [okR]; auto.
+  - intros H. apply andb_prop in H. destruct H as [H H3]. apply andb_prop in H. destruct H as [H1 H2].
+    destruct (getv e v1), (getv e v2); cbn [orb okR]; auto.
+Qed.
+
+Lemma okR_answer e r t : okR r -> okR (answer e r t).
+Proof.
+  induction r; cbn [okR answer]; auto.
+  - intros _. destruct (t =? t0); cbn; auto.
+  - intros [A B]. specialize (IHr A). destruct (fin (answer e r t)); [apply okR_start; auto|].
+    destruct (ended (answer e r t)); cbn [okR]; auto.
+  - intros [A B]. split; apply nev_answer; auto.
+  - intros [A B]. specialize (IHr A). destruct (fin (answer e r t)).
+    + destruct (getv e v); cbn; auto. pose proof (okR_start e body B) as S. destruct (fin (start e body)); cbn; auto.
+      destruct (ended (start e body)); cbn [okR]; auto.
+    + destruct (ended (answer e r t)); cbn [okR]; auto.
+  - intros [A B]. auto.
+Qed.
+
+Lemma okR_not_stuck r : okR r -> ~ stuck_par r.
+Proof.
+  induction r; cbn [okR stuck_par]; auto.
+  - intros [A B]. auto.
+  - intros [A B] [H|[H|[H|H]]]; [rewrite (nev_not_ended _ A) in H; discriminate|rewrite (nev_not_ended _ B) in H; discriminate|exact (nev_not_stuck _ A H)|exact (nev_not_stuck _ B H)].
+  - intros [A B]. auto.
+  - intros [A B] [H|H]; [apply IHr1|apply IHr2]; auto.
+Qed.
+
+Lemma progress r : wfr r -> nospin r -> okR r -> complete r = false -> pending r <> [].
+Proof. intros W N O C P. exact (okR_not_stuck r O (progress_or_stuck r W N C P)). Qed.
 
 (* an answer for a task that is not pending changes nothing *)
 Lemma answer_not_pending e r t : wfr r -> ~ In t (pending r) -> answer e r t = r.
 Proof.
   induction r; cbn [wfr pending answer]; auto.
   - intros _ N. destruct (Nat.eqb_spec t t0); auto. subst. exfalso. apply N. left; reflexivity.
-  - intros [F W] N. rewrite (IHr W N), F. reflexivity.
+  - intros [F [E W]] N. rewrite (IHr W N), F, E. reflexivity.
   - intros [W1 W2] N. rewrite IHr1, IHr2; auto; intros H; apply N; apply in_or_app; auto.
-  - intros [F W] N. rewrite (IHr W N), F. reflexivity.
+  - intros [F [E W]] N. rewrite (IHr W N), F, E. reflexivity.
   - intros W N. rewrite IHr; auto.
+  - intros [W1 W2] N. rewrite IHr1, IHr2; auto; intros H; apply N; apply in_or_app; auto.
 Qed.
 
-(* what the data prescribes when no answer changes it: the tasks a block executes (None: a loop whose
-   condition stays true never ends) *)
-Fixpoint exec_tasks (e : env) (b : blk) : option (list nat) :=
+(* what the data prescribes when no answer changes it: the tasks a block executes, the end events it reaches, whether a
+   token leaves it (None: a loop whose condition stays true never ends) *)
+Definition res := option (list nat * list nat * bool).
+Definition seq_res (a : res) (b : res) : res :=
+  match a with
+  | Some (ta, na, true) => match b with Some (tb, nb, x) => Some (ta ++ tb, na ++ nb, x) | None => None end
+  | other => other
+  end.
+Definition both_res (f : bool -> bool -> bool) (a b : res) : res :=
+  match a, b with Some (ta, na, xa), Some (tb, nb, xb) => Some (ta ++ tb, na ++ nb, f xa xb) | _, _ => None end.
+(* what follows one pass through a loop body: nothing if the condition is false; otherwise another pass — which, the
+   data being constant, either never ends or is consumed by an end event *)
+Definition loop_tail (c : bool) (pass : res) : res :=
+  if c then match pass with Some (_, _, true) => None | other => other end else Some ([], [], true).
+Definition sub_res (a : res) : res := match a with Some (t, n, _) => Some (t, n, true) | None => None end.
+Definition none_res : res := Some ([], [], false).
+
+Fixpoint exec (e : env) (b : blk) : res :=
   match b with
-  | BSkip => Some []
-  | BTask t => Some [t]
-  | BSeq a b | BPar a b =>
-      match exec_tasks e a, exec_tasks e b with Some x, Some y => Some (x ++ y) | _, _ => None end
-  | BIf v a b => if getv e v then exec_tasks e a else exec_tasks e b
-  | BLoop v body => if getv e v then None else exec_tasks e body
-  | BSub b => exec_tasks e b
+  | BSkip => Some ([], [], true)
+  | BTask t => Some ([t], [], true)
+  | BEnd k => Some ([], [k], false)
+  | BSeq a b => seq_res (exec e a) (exec e b)
+  | BPar a b => both_res andb (exec e a) (exec e b)
+  | BIf v a b => if getv e v then exec e a else exec e b
+  | BLoop v body => seq_res (exec e body) (loop_tail (getv e v) (exec e body))
+  | BSub b => sub_res (exec e b)
   | BIncl v1 v2 a b d =>
-      if getv e v1 || getv e v2 then
-        match (if getv e v1 then exec_tasks e a else Some []), (if getv e v2 then exec_tasks e b else Some []) with
-        | Some x, Some y => Some (x ++ y) | _, _ => None end
-      else exec_tasks e d
-  | BCond t v a b => match (if getv e v then exec_tasks e a else exec_tasks e b) with Some x => Some (t :: x) | None => None end
+      if getv e v1 || getv e v2
+      then both_res orb (if getv e v1 then exec e a else none_res) (if getv e v2 then exec e b else none_res)
+      else exec e d
+  | BCond t v a b => seq_res (Some ([t], [], true)) (if getv e v then exec e a else exec e b)
   end.
 
-(* the tasks still to be executed from a run state *)
-Fixpoint remaining (e : env) (r : run) : option (list nat) :=
+Fixpoint rem (e : env) (r : run) : res :=
   match r with
-  | RDone => Some []
+  | RDone => Some ([], [], true)
+  | REnded => none_res
   | RSpin => None
-  | RTask t => Some [t]
-  | RSeq r rest => match remaining e r, exec_tasks e rest with Some x, Some y => Some (x ++ y) | _, _ => None end
-  | RPar a b => match remaining e a, remaining e b with Some x, Some y => Some (x ++ y) | _, _ => None end
-  | RLoop r v body => if getv e v then None else remaining e r
-  | RSub r => remaining e r
+  | RTask t => Some ([t], [], true)
+  | RSeq r rest => seq_res (rem e r) (exec e rest)
+  | RPar a b => both_res andb (rem e a) (rem e b)
+  | RIncl a b => both_res orb (rem e a) (rem e b)
+  | RLoop r v body => seq_res (rem e r) (loop_tail (getv e v) (exec e body))
+  | RSub r => sub_res (rem e r)
   end.
 
-Lemma remaining_fin e r : fin r = true -> remaining e r = Some [].
+Definition req (a b : res) : Prop :=
+  match a, b with
+  | Some (t, n, x), Some (t', n', x') => Permutation t t' /\ Permutation n n' /\ x = x'
+  | None, None => True
+  | _, _ => False
+  end.
+Definition pre (s : list nat) (a : res) : res := match a with Some (t, n, x) => Some (t, s ++ n, x) | None => None end.
+Definition cons_t (t0 : nat) (a : res) : res := match a with Some (t, n, x) => Some (t0 :: t, n, x) | None => None end.
+
+Lemma req_refl a : req a a.
+Proof. destruct a as [[[t n] x]|]; cbn; auto. Qed.
+Lemma req_sym a b : req a b -> req b a.
+Proof. destruct a as [[[t n] x]|], b as [[[t' n'] x']|]; cbn; auto. intros [A [B C]]. repeat split; auto using Permutation_sym. Qed.
+Lemma req_trans a b c : req a b -> req b c -> req a c.
 Proof.
-  induction r; cbn [fin remaining]; try discriminate; auto.
-  intros H. apply andb_prop in H. destruct H as [H1 H2]. rewrite (IHr1 H1), (IHr2 H2). reflexivity.
+  destruct a as [[[t n] x]|], b as [[[t' n'] x']|], c as [[[t2 n2] x2]|]; cbn; auto; try contradiction.
+  intros [A [B C]] [A' [B' C']]. repeat split; try congruence; eauto using Permutation_trans.
+Qed.
+Lemma req_eq a b : a = b -> req a b.
+Proof. intros ->. apply req_refl. Qed.
+
+Lemma seq_res_req a a' b b' : req a a' -> req b b' -> req (seq_res a b) (seq_res a' b').
+Proof.
+  destruct a as [[[t n] x]|], a' as [[[t' n'] x']|]; cbn; auto; try contradiction.
+  intros [A [B C]]. subst x'. destruct x; cbn; auto.
+  destruct b as [[[tb nb] xb]|], b' as [[[tb' nb'] xb']|]; cbn; auto; try contradiction.
+  intros [A' [B' C']]. repeat split; auto using Permutation_app.
+Qed.
+Lemma both_res_req f a a' b b' : req a a' -> req b b' -> req (both_res f a b) (both_res f a' b').
+Proof.
+  destruct a as [[[t n] x]|], a' as [[[t' n'] x']|]; cbn; auto; try contradiction.
+  intros [A [B C]]. subst x'.
+  destruct b as [[[tb nb] xb]|], b' as [[[tb' nb'] xb']|]; cbn; auto; try contradiction.
+  intros [A' [B' C']]. subst. repeat split; auto using Permutation_app.
+Qed.
+Lemma loop_tail_req c a a' : req a a' -> req (loop_tail c a) (loop_tail c a').
+Proof.
+  destruct c; cbn; auto. destruct a as [[[t n] x]|], a' as [[[t' n'] x']|]; cbn; auto; try contradiction.
+  intros [A [B C]]. subst x'. destruct x; cbn; auto.
+Qed.
+Lemma sub_res_req a a' : req a a' -> req (sub_res a) (sub_res a').
+Proof. destruct a as [[[t n] x]|], a' as [[[t' n'] x']|]; cbn; auto. intros [A [B C]]. auto. Qed.
+Lemma pre_req s s' a a' : Permutation s s' -> req a a' -> req (pre s a) (pre s' a').
+Proof.
+  destruct a as [[[t n] x]|], a' as [[[t' n'] x']|]; cbn; auto. intros P [A [B C]]. repeat split; auto using Permutation_app.
+Qed.
+Lemma cons_req t0 a a' : req a a' -> req (cons_t t0 a) (cons_t t0 a').
+Proof. destruct a as [[[t n] x]|], a' as [[[t' n'] x']|]; cbn; auto. intros [A [B C]]. repeat split; auto. Qed.
+
+Lemma pre_nil a : pre [] a = a.
+Proof. destruct a as [[[t n] x]|]; reflexivity. Qed.
+Lemma pre_app s1 s2 a : pre (s1 ++ s2) a = pre s1 (pre s2 a).
+Proof. destruct a as [[[t n] x]|]; cbn; auto. rewrite app_assoc. reflexivity. Qed.
+Lemma pre_seq s a b : pre s (seq_res a b) = seq_res (pre s a) b.
+Proof.
+  destruct a as [[[t n] x]|]; cbn; auto. destruct x; cbn; auto.
+  destruct b as [[[tb nb] xb]|]; cbn; auto. rewrite app_assoc. reflexivity.
+Qed.
+Lemma pre_sub s a : pre s (sub_res a) = sub_res (pre s a).
+Proof. destruct a as [[[t n] x]|]; reflexivity. Qed.
+Lemma pre_both f s1 s2 a b : req (pre (s1 ++ s2) (both_res f a b)) (both_res f (pre s1 a) (pre s2 b)).
+Proof.
+  destruct a as [[[t n] x]|], b as [[[tb nb] xb]|]; cbn; auto. repeat split; auto.
+  rewrite <- !app_assoc. apply Permutation_app_head. rewrite !app_assoc. apply Permutation_app_tail. apply Permutation_app_comm.
+Qed.
+Lemma cons_seq t0 a b : cons_t t0 (seq_res a b) = seq_res (cons_t t0 a) b.
+Proof. destruct a as [[[t n] x]|]; cbn; auto. destruct x; cbn; auto. destruct b as [[[tb nb] xb]|]; reflexivity. Qed.
+Lemma cons_sub t0 a : cons_t t0 (sub_res a) = sub_res (cons_t t0 a).
+Proof. destruct a as [[[t n] x]|]; reflexivity. Qed.
+Lemma cons_pre t0 s a : cons_t t0 (pre s a) = pre s (cons_t t0 a).
+Proof. destruct a as [[[t n] x]|]; reflexivity. Qed.
+Lemma cons_both_l f t0 a b : cons_t t0 (both_res f a b) = both_res f (cons_t t0 a) b.
+Proof. destruct a as [[[t n] x]|], b as [[[tb nb] xb]|]; reflexivity. Qed.
+Lemma cons_both_r f t0 a b : req (cons_t t0 (both_res f a b)) (both_res f a (cons_t t0 b)).
+Proof. destruct a as [[[t n] x]|], b as [[[tb nb] xb]|]; cbn; auto. repeat split; auto. apply Permutation_middle. Qed.
+
+Lemma rem_fin_ended e r : (fin r = true -> rem e r = Some ([], [], true)) /\ (ended r = true -> rem e r = Some ([], [], false)).
+Proof.
+  induction r; cbn [fin ended rem]; split; try discriminate; auto.
+  - intros H. apply andb_prop in H. destruct H as [H1 H2]. destruct IHr1 as [A _], IHr2 as [B _]. rewrite (A H1), (B H2). reflexivity.
+  - intros H. destruct IHr as [A B]. apply orb_prop in H. destruct H as [H|H]; [rewrite (A H)|rewrite (B H)]; reflexivity.
+  - intros H. apply andb_prop in H. destruct H as [H H3]. apply andb_prop in H. destruct H as [H1 H2].
+    destruct IHr1 as [A1 B1], IHr2 as [A2 B2].
+    apply orb_prop in H1. apply orb_prop in H2.
+    destruct H1 as [H1|H1], H2 as [H2|H2].
+    + rewrite (A1 H1), (A2 H2). reflexivity.
+    + rewrite (A1 H1), (B2 H2). reflexivity.
+    + rewrite (B1 H1), (A2 H2). reflexivity.
+    + exfalso. apply orb_prop in H3. destruct H3 as [H3|H3]; apply fin_not_ended in H3; congruence.
+  - intros H. apply andb_prop in H. destruct H as [H1 H2]. destruct IHr1 as [_ B1], IHr2 as [_ B2]. rewrite (B1 H1), (B2 H2). reflexivity.
 Qed.
 
-Lemma remaining_start e b : remaining e (start e b) = exec_tasks e b.
+Lemma rem_fin e r : fin r = true -> rem e r = Some ([], [], true).
+Proof. apply rem_fin_ended. Qed.
+Lemma rem_ended e r : ended r = true -> rem e r = Some ([], [], false).
+Proof. apply rem_fin_ended. Qed.
+
+Lemma rem_start e b : req (exec e b) (pre (ends_start e b) (rem e (start e b))).
 Proof.
-  induction b; cbn [start exec_tasks remaining]; auto.
+  induction b; cbn [exec ends_start start].
+  - apply req_refl.
+  - apply req_refl.
   - destruct (fin (start e b1)) eqn:F.
-    + rewrite <- IHb1, (remaining_fin _ _ F), IHb2. destruct (exec_tasks e b2); reflexivity.
-    + cbn [remaining]. rewrite IHb1. reflexivity.
-  - rewrite IHb1, IHb2. reflexivity.
+    + rewrite pre_app. eapply req_trans; [apply seq_res_req; [exact IHb1|exact IHb2]|].
+      rewrite (rem_fin _ _ F). cbn [pre]. rewrite app_nil_r.
+      destruct (pre (ends_start e b2) (rem e (start e b2))) as [[[t n] x]|]; cbn; auto.
+    + destruct (ended (start e b1)) eqn:G.
+      * eapply req_trans; [apply seq_res_req; [exact IHb1|apply req_refl]|].
+        rewrite (rem_ended _ _ G). cbn. repeat split; auto. rewrite !app_nil_r. auto.
+      * cbn [rem]. rewrite app_nil_r, pre_seq. apply seq_res_req; [exact IHb1|apply req_refl].
+  - cbn [rem]. eapply req_trans; [|apply req_sym, pre_both]. apply both_res_req; auto.
   - destruct (getv e v); auto.
   - destruct (fin (start e b)) eqn:F.
-    + destruct (getv e v); cbn [remaining]; auto. rewrite <- IHb. apply eq_sym, remaining_fin, F.
-    + cbn [remaining]. destruct (getv e v); auto.
-  - destruct (getv e v1), (getv e v2); cbn [orb remaining]; auto; rewrite ?IHb1, ?IHb2; auto.
+    + rewrite (rem_fin _ _ F) in IHb. cbn [pre] in IHb.
+      eapply req_trans; [apply seq_res_req; [exact IHb|apply loop_tail_req; exact IHb]|].
+      destruct (getv e v); cbn; auto. repeat split; auto. rewrite !app_nil_r. auto.
+    + destruct (ended (start e b)) eqn:G.
+      * rewrite (rem_ended _ _ G) in IHb. cbn [pre none_res] in IHb.
+        eapply req_trans; [apply seq_res_req; [exact IHb|apply req_refl]|]. cbn. auto.
+      * cbn [rem]. rewrite pre_seq. apply seq_res_req; [exact IHb|apply req_refl].
+  - cbn [rem]. rewrite pre_sub. apply sub_res_req. exact IHb.
+  - destruct (getv e v1 || getv e v2) eqn:O; auto. cbn [rem].
+    eapply req_trans; [|apply req_sym, pre_both]. apply both_res_req.
+    + destruct (getv e v1); auto. apply req_refl.
+    + destruct (getv e v2); auto. apply req_refl.
+  - cbn [rem exec]. rewrite pre_nil. apply req_refl.
+  - cbn. auto.
+Qed.
+
+Lemma ends_answer_not_pending e r t : wfr r -> ~ In t (pending r) -> ends_answer e r t = [].
+Proof.
+  induction r; cbn [wfr pending ends_answer]; auto.
+  - intros [F [E W]] N. rewrite (IHr W N), (answer_not_pending e r t W N), F. reflexivity.
+  - intros [W1 W2] N. rewrite IHr1, IHr2; auto; intros H; apply N; apply in_or_app; auto.
+  - intros [F [E W]] N. rewrite (IHr W N), (answer_not_pending e r t W N), F. reflexivity.
+  - intros [W1 W2] N. rewrite IHr1, IHr2; auto; intros H; apply N; apply in_or_app; auto.
 Qed.
 
 Lemma nodup_app {A} (a b : list A) : NoDup (a ++ b) -> NoDup a /\ NoDup b /\ forall x, In x a -> ~ In x b.
@@ -121,65 +390,121 @@ Proof.
     + intros y [->|I] Hb; [apply N; apply in_or_app; auto|exact (Dj y I Hb)].
 Qed.
 
-(* answering a pending task removes exactly that task from what remains (the data e does not change) *)
-Lemma remaining_answer e r t l : wfr r -> NoDup (pending r) -> In t (pending r) -> remaining e r = Some l ->
-  exists l', remaining e (answer e r t) = Some l' /\ Permutation l (t :: l').
+(* both-branch blocks: answering in one branch *)
+Lemma both_answer f e r1 r2 t :
+  (forall (IH1 : In t (pending r1)) , req (rem e r1) (cons_t t (pre (ends_answer e r1 t) (rem e (answer e r1 t))))) ->
+  (forall (IH2 : In t (pending r2)) , req (rem e r2) (cons_t t (pre (ends_answer e r2 t) (rem e (answer e r2 t))))) ->
+  wfr r1 -> wfr r2 -> NoDup (pending r1 ++ pending r2) -> In t (pending r1 ++ pending r2) ->
+  req (both_res f (rem e r1) (rem e r2))
+      (cons_t t (pre (ends_answer e r1 t ++ ends_answer e r2 t) (both_res f (rem e (answer e r1 t)) (rem e (answer e r2 t))))).
 Proof.
-  revert l. induction r; intros l W ND I R; cbn [wfr pending answer remaining] in *; try contradiction.
-  - destruct I as [->|[]]. rewrite Nat.eqb_refl. injection R as <-. exists []. split; auto.
-  - destruct W as [F W]. destruct (remaining e r) as [x|] eqn:Rx; [|discriminate].
-    destruct (exec_tasks e rest) as [y|] eqn:Ry; [|discriminate]. injection R as <-.
-    destruct (IHr x W ND I eq_refl) as [x' [E P]].
+  intros IH1 IH2 W1 W2 ND I. destruct (nodup_app _ _ ND) as [ND1 [ND2 DJ]].
+  apply in_app_or in I. destruct I as [I|I].
+  - assert (N2 : ~ In t (pending r2)) by (apply DJ; exact I).
+    rewrite (answer_not_pending e r2 t W2 N2), (ends_answer_not_pending e r2 t W2 N2).
+    eapply req_trans; [|apply cons_req, req_sym, pre_both]. rewrite pre_nil, cons_both_l.
+    apply both_res_req; [apply IH1; exact I|apply req_refl].
+  - assert (N1 : ~ In t (pending r1)) by (intros H; exact (DJ t H I)).
+    rewrite (answer_not_pending e r1 t W1 N1), (ends_answer_not_pending e r1 t W1 N1).
+    eapply req_trans; [|apply cons_req, req_sym, pre_both]. rewrite pre_nil.
+    eapply req_trans; [|apply req_sym, cons_both_r].
+    apply both_res_req; [apply req_refl|apply IH2; exact I].
+Qed.
+
+(* answering a pending task: exactly that task leaves what remains, and the end events reached by the answer *)
+Lemma rem_answer e r t : wfr r -> NoDup (pending r) -> In t (pending r) ->
+  req (rem e r) (cons_t t (pre (ends_answer e r t) (rem e (answer e r t)))).
+Proof.
+  induction r; intros W ND I; cbn [wfr pending answer rem ends_answer] in *; try contradiction.
+  - destruct I as [->|[]]. rewrite Nat.eqb_refl. cbn. auto.
+  - destruct W as [F [E W]]. specialize (IHr W ND I).
     destruct (fin (answer e r t)) eqn:G.
-    + rewrite (remaining_fin _ _ G) in E. injection E as <-. exists y. split; [rewrite remaining_start; exact Ry|].
-      apply (Permutation_app_tail y) in P. exact P.
-    + cbn [remaining]. rewrite E, Ry. exists (x' ++ y). split; auto. apply (Permutation_app_tail y) in P. exact P.
-  - destruct W as [W1 W2]. destruct (remaining e r1) as [x|] eqn:Rx; [|discriminate].
-    destruct (remaining e r2) as [y|] eqn:Ry; [|discriminate]. injection R as <-.
-    destruct (nodup_app _ _ ND) as [ND1 [ND2 DJ]].
-    apply in_app_or in I. destruct I as [I|I].
-    + assert (N2 : ~ In t (pending r2)) by (apply DJ; exact I).
-      rewrite (answer_not_pending e r2 t W2 N2). destruct (IHr1 x W1 ND1 I eq_refl) as [x' [E P]].
-      rewrite E, Ry. exists (x' ++ y). split; auto. apply (Permutation_app_tail y) in P. exact P.
-    + assert (N1 : ~ In t (pending r1)) by (intros H; exact (DJ t H I)).
-      rewrite (answer_not_pending e r1 t W1 N1). destruct (IHr2 y W2 ND2 I eq_refl) as [y' [E P]].
-      rewrite Rx, E. exists (x ++ y'). split; auto.
-      apply Permutation_trans with (x ++ t :: y'); [apply Permutation_app_head; exact P|].
-      apply Permutation_sym, Permutation_middle.
-  - destruct W as [F W]. destruct (getv e v) eqn:V; [discriminate|].
-    destruct (IHr l W ND I R) as [l' [E P]].
+    + rewrite (rem_fin _ _ G) in IHr. cbn [pre cons_t] in IHr. rewrite pre_app.
+      eapply req_trans; [apply seq_res_req; [exact IHr|apply rem_start]|].
+      destruct (pre (ends_start e rest) (rem e (start e rest))) as [[[tb nb] xb]|]; cbn; auto.
+      repeat split; auto. rewrite app_nil_r. auto.
+    + destruct (ended (answer e r t)) eqn:H.
+      * rewrite (rem_ended _ _ H) in IHr. cbn [pre cons_t] in IHr.
+        eapply req_trans; [apply seq_res_req; [exact IHr|apply req_refl]|]. cbn. repeat split; auto. rewrite !app_nil_r. auto.
+      * cbn [rem]. rewrite app_nil_r, pre_seq, cons_seq. apply seq_res_req; [exact IHr|apply req_refl].
+  - destruct W as [W1 W2]. apply both_answer; auto.
+    + intros I1. apply IHr1; auto. apply (nodup_app _ _ ND).
+    + intros I2. apply IHr2; auto. apply (nodup_app _ _ ND).
+  - destruct W as [F [E W]]. specialize (IHr W ND I).
     destruct (fin (answer e r t)) eqn:G.
-    + rewrite (remaining_fin _ _ G) in E. injection E as <-. exists []. split; auto.
-    + cbn [remaining]. rewrite V. exists l'. split; auto.
-  - destruct (IHr l W ND I R) as [l' [E P]]. exists l'. split; auto.
+    + rewrite (rem_fin _ _ G) in IHr. cbn [pre cons_t] in IHr. cbn [andb].
+      destruct (getv e v) eqn:V.
+      * rewrite pre_app.
+        eapply req_trans; [apply seq_res_req; [exact IHr|apply loop_tail_req, rem_start]|].
+        destruct (fin (start e body)) eqn:F2.
+        -- rewrite (rem_fin _ _ F2). cbn. auto.
+        -- destruct (ended (start e body)) eqn:E2.
+           ++ rewrite (rem_ended _ _ E2). cbn. repeat split; auto. rewrite !app_nil_r. auto.
+           ++ cbn [rem]. rewrite V.
+              pose proof (rem_start e body) as RS.
+              destruct (rem e (start e body)) as [[[t2 n2] x2]|] eqn:R2; cbn [pre] in *.
+              ** destruct (exec e body) as [[[tx nx] xx]|] eqn:X; cbn in RS; [|contradiction].
+                 destruct RS as [P1 [P2 P3]]. subst xx. destruct x2; cbn; auto.
+                 repeat split; auto. rewrite !app_nil_r. rewrite app_assoc. auto.
+              ** cbn. auto.
+      * eapply req_trans; [apply seq_res_req; [exact IHr|apply req_refl]|]. cbn. repeat split; auto; rewrite ?app_nil_r; auto.
+    + destruct (ended (answer e r t)) eqn:H.
+      * rewrite (rem_ended _ _ H) in IHr. cbn [pre cons_t] in IHr. cbn [andb].
+        eapply req_trans; [apply seq_res_req; [exact IHr|apply req_refl]|]. cbn. repeat split; auto. rewrite !app_nil_r. auto.
+      * cbn [rem andb]. rewrite app_nil_r, pre_seq, cons_seq. apply seq_res_req; [exact IHr|apply req_refl].
+  - rewrite pre_sub, cons_sub. apply sub_res_req. apply IHr; auto.
+  - destruct W as [W1 W2]. apply both_answer; auto.
+    + intros I1. apply IHr1; auto. apply (nodup_app _ _ ND).
+    + intros I2. apply IHr2; auto. apply (nodup_app _ _ ND).
 Qed.
 
 (* a run of the driver that never writes: the tasks answered, each pending (and pending without
-   duplicates) when answered *)
+   duplicates) when answered; the end events it reaches; the state it ends in *)
 Fixpoint valid_run (e : env) (r : run) (ts : list nat) : Prop :=
   match ts with
-  | [] => fin r = true
+  | [] => complete r = true
   | t :: rest => In t (pending r) /\ NoDup (pending r) /\ valid_run e (answer e r t) rest
   end.
+Fixpoint run_ends (e : env) (r : run) (ts : list nat) : list nat :=
+  match ts with [] => [] | t :: rest => ends_answer e r t ++ run_ends e (answer e r t) rest end.
+Definition final (e : env) (r : run) (ts : list nat) : run := fold_left (answer e) ts r.
 
-Lemma order_independent_gen e ts : forall r l, wfr r -> remaining e r = Some l -> valid_run e r ts -> Permutation l ts.
+Lemma order_independent_gen e ts : forall r l n x, wfr r -> rem e r = Some (l, n, x) -> valid_run e r ts ->
+  Permutation l ts /\ Permutation n (run_ends e r ts) /\ x = fin (final e r ts).
 Proof.
-  induction ts as [|t ts IH]; intros r l W R V; cbn [valid_run] in V.
-  - rewrite (remaining_fin _ _ V) in R. injection R as <-. constructor.
-  - destruct V as [I [ND V]]. destruct (remaining_answer e r t l W ND I R) as [l' [E P]].
-    apply Permutation_trans with (t :: l'); auto. apply perm_skip.
-    apply (IH (answer e r t) l'); [apply wfr_answer; auto | exact E | exact V].
+  induction ts as [|t ts IH]; intros r l n x W R V; cbn [valid_run run_ends final fold_left] in *.
+  - unfold complete in V. destruct (fin r) eqn:F.
+    + rewrite (rem_fin _ _ F) in R. injection R as <- <- <-. auto.
+    + cbn in V. rewrite (rem_ended _ _ V) in R. injection R as <- <- <-. auto.
+  - destruct V as [I [ND V]]. pose proof (rem_answer e r t W ND I) as RA. rewrite R in RA.
+    destruct (rem e (answer e r t)) as [[[l' n'] x']|] eqn:R'; cbn in RA; [|contradiction].
+    destruct RA as [P1 [P2 ->]].
+    destruct (IH (answer e r t) l' n' x' (wfr_answer e r t W) R' V) as [Q1 [Q2 Q3]].
+    repeat split; auto.
+    + apply Permutation_trans with (t :: l'); auto.
+    + apply Permutation_trans with (ends_answer e r t ++ n'); auto. apply Permutation_app_head. exact Q2.
 Qed.
 
 (** EXACTLY AS OFTEN AS PRESCRIBED, IN EVERY ORDER: any complete run of the driver answers each task
-    exactly as many times as the data prescribes *)
-Lemma order_independent e b ts l : exec_tasks e b = Some l -> valid_run e (start e b) ts -> Permutation l ts.
-Proof. intros X V. eapply order_independent_gen; eauto. apply wfr_start. rewrite remaining_start. exact X. Qed.
+    exactly as many times as the data prescribes, reaches exactly the end events it prescribes, and a
+    token leaves the program iff it prescribes that *)
+Lemma order_independent e b ts l n x : exec e b = Some (l, n, x) -> valid_run e (start e b) ts ->
+  Permutation l ts /\ Permutation n (ends_start e b ++ run_ends e (start e b) ts) /\ x = fin (final e (start e b) ts).
+Proof.
+  intros X V. pose proof (rem_start e b) as RS. rewrite X in RS.
+  destruct (rem e (start e b)) as [[[l' n'] x']|] eqn:R; cbn in RS; [|contradiction].
+  destruct RS as [P1 [P2 ->]].
+  destruct (order_independent_gen e ts _ _ _ _ (wfr_start e b) R V) as [Q1 [Q2 Q3]].
+  repeat split; auto.
+  - apply Permutation_trans with l'; auto.
+  - apply Permutation_trans with (ends_start e b ++ n'); auto. apply Permutation_app_head. exact Q2.
+Qed.
 
 Example order_independent_nonvacuous :
-  let b := BSeq (BPar (BTask 1) (BSub (BIncl 0 1 (BTask 2) (BTask 3) (BTask 4)))) (BCond 5 2 (BTask 6) (BTask 7)) in
+  let b := BSeq (BPar (BTask 1) (BSub (BIncl 0 1 (BSeq (BTask 2) (BEnd 8)) (BTask 3) (BTask 4)))) (BCond 5 2 (BTask 6) (BSeq (BTask 7) (BEnd 9))) in
   let e := [true; true; false; false] in
-  exec_tasks e b = Some [1; 2; 3; 5; 7] /\ valid_run e (start e b) [3; 1; 2; 5; 7] /\ valid_run e (start e b) [2; 3; 1; 5; 7].
+  exec e b = Some ([1; 2; 3; 5; 7], [8; 9], false) /\ valid_run e (start e b) [3; 1; 2; 5; 7] /\ valid_run e (start e b) [2; 3; 1; 5; 7]
+  /\ run_ends e (start e b) [3; 1; 2; 5; 7] = [8; 9].
 Proof.
   cbn. repeat split; auto; repeat constructor; cbn; intuition discriminate.
 Qed.
